@@ -4,6 +4,7 @@ CONSTANTS
   EmitCases = TRUE
   AliasForms = {"ident", "castgeneric2", "binor", "closure2", "less"}
 INVARIANTS
+  P_C18_Progress
   P_C16_Split
   P_C16_IdentOnly
   P_C16_KnownTight
